@@ -58,6 +58,12 @@ def run(ctx):
   ctx.expect("R-C18-INVERT", 3, "affine Add and Double + BatchInverse inputs")
   rule_shift(ctx)
   rule_intpow(ctx)
+  rule_next(ctx)
+  # an all-zero Jacobian triple makes JacobianToAffine raise ValueError: doubling must send 2-torsion points (y = 0) and infinity to INFINITY_JACOBIAN,
+  # and the batched conversions must treat z = 0 (shared with C11)
+  from . import c11
+  ctx.borrow(c11.rule_dispatch, "R-C18-JACOBIAN", lambda r: "Jacobian" in r.where)
+  ctx.expect("R-C18-JACOBIAN", 3, "Jacobian doubling / addition / conversion dispatch")
   ctx.expect("R-C18-INTPOW", 7, "six documented differences + the 2-adic square root")
   ctx.expect("R-C18-SHIFT", 2, "TransformOrderLen and the comb offsets")
   from . import c02
@@ -708,3 +714,27 @@ def rule_intpow(ctx):
       ctx.record(R, fn.where, "exponent %s - %d" % (xt[:60], cst), ok, "the size gate (>= %d) keeps the exponent non-negative" % g if ok else
                  "the path only guarantees %s >= %d: for values in [%d, %d) the power is a float (2 ** -k) and the integer square root / floor division that consumes it raises TypeError" % (xt[:60], g, g, cst))
   ctx.extra["gated_power_sites"] = n_sites
+
+
+# ------------------------------------------------------------------ NEXT (next() on an iterator that may be exhausted raises StopIteration)
+def rule_next(ctx):
+  """`next(it)` without a default raises StopIteration when the iterator is empty.  In code reachable from the checks every such call must have a
+  default, or iterate something that cannot be empty (itertools.count / cycle / repeat)."""
+  R = "R-C18-NEXT"
+  repo = ctx.repo
+  n_sites = n_fn = 0
+  for fn in repo.all_funcs(include_examples=False):
+    if fn.where.startswith("randomness_tests.") or fn.module.short.endswith("_test"):
+      continue
+    n_fn += 1
+    for n in ast.walk(fn.node):
+      if isinstance(n, ast.Call) and isinstance(n.func, ast.Name) and n.func.id == "next":
+        n_sites += 1
+        if len(n.args) >= 2 or any(k.arg == "default" for k in n.keywords):
+          ctx.ok(R, fn.where, norm(n)[:70], "has a default")
+          continue
+        src = n.args[0] if n.args else None
+        endless = isinstance(src, ast.Call) and ast.unparse(src.func) in ("itertools.count", "itertools.cycle", "itertools.repeat")
+        ctx.record(R, fn.where, norm(n)[:70], endless, "endless iterator" if endless else
+                   "next() without a default: StopIteration escapes when no element satisfies the generator's filter (empty iterator)")
+  ctx.ok(R, "package", "scan", "%d functions scanned, %d next() calls" % (n_fn, n_sites))
